@@ -93,9 +93,12 @@ Definition recover (C : codec) (d : Z) (shards : list (option bytes)) (maxlen : 
   | None => []
   end.
 
-(* discardShards: delete every set with _itimediff(newest*ss, id*ss) > maxShardSets*ss *)
+(* discardShards: delete every set with d := _itimediff(newest*ss, id*ss) > maxShardSets*ss - too
+   far behind the newest group - or d < 0 - "ahead" of it, which only a group exactly 2^31 ids
+   away can be (a genuinely newer group would have become the newest) *)
 Definition too_old (ss newest id : Z) : bool :=
-  itimediff (u32 (newest * ss)) (u32 (id * ss)) >? c_maxShardSets * ss.
+  let d := itimediff (u32 (newest * ss)) (u32 (id * ss)) in
+  (d >? c_maxShardSets * ss) || (d <? 0).
 Definition discard (ss newest : Z) (sets : list (Z * list bytes)) : list (Z * list bytes) :=
   filter (fun '(id, _) => negb (too_old ss newest id)) sets.
 
